@@ -16,6 +16,20 @@ use std::error::Error;
 
 pub struct C03;
 
+/// Directed dense sections: more items than fit a u16 counter (200 000 zero bytes are 66 666
+/// empty TLVs; the second form alternates types).
+fn dense_section(kind: u64) -> Vec<u8> {
+    let mut v = vec![0u8; 200_001];
+    if kind == 1 {
+        for (i, b) in v.iter_mut().enumerate() {
+            if i % 3 == 0 {
+                *b = (i / 3) as u8;
+            }
+        }
+    }
+    v
+}
+
 const DIRECTED: &[(&[u8], Entry)] = &[
     (b"PROXY UNKNOWN\r\n", Entry::V1Text),
     (b"PROXY TCP4 1.2.3.4 5.6.7.8 80 443\r\n", Entry::V1FromStrHeader),
@@ -71,6 +85,22 @@ fn walk_tlvs(it: v2::TypeLengthValues<'_>) -> Result<usize, usize> {
     }
 }
 
+/// Display with explicit width / precision / fill, as a caller's format string may ask for.
+fn format_variants<T: std::fmt::Display + std::fmt::Debug>(x: &T, natural_len: usize) {
+    for p in [0usize, 1, 2, 5, 13, 14, 15, 16, 17, 18, 19, 20, 24, 31, 32, 33, 64, 106, 107, 300] {
+        let _ = format!("{:.*}", p, x);
+        if p <= natural_len + 3 {
+            let _ = format!("{:>w$.p$}", x, w = p + 2, p = p);
+        }
+    }
+    let _ = format!("{:^40}", x);
+    let _ = format!("{:<4}", x);
+    let _ = format!("{:#?}", x);
+    let _ = format!("{:#}", x);
+    let _ = format!("{:+}", x);
+    let _ = format!("{:08}", x);
+}
+
 fn exercise_v1(h: &v1::Header<'_>) {
     let _ = h.protocol();
     let _ = h.addresses_str();
@@ -84,6 +114,9 @@ fn exercise_v1(h: &v1::Header<'_>) {
     let _ = c == *h;
     let _ = h.addresses.to_string();
     let _ = h.addresses.protocol();
+    format_variants(h, h.header.len());
+    format_variants(&o, h.header.len());
+    format_variants(&h.addresses, 60);
 }
 
 fn exercise_v2(h: &v2::Header<'_>) -> Result<usize, usize> {
@@ -104,6 +137,9 @@ fn exercise_v2(h: &v2::Header<'_>) -> Result<usize, usize> {
     let _ = format!("{}", h);
     if h.len() <= 4096 {
         let _ = format!("{:?}", h);
+    }
+    if h.len() <= 256 {
+        format_variants(h, 40);
     }
     let r = walk_tlvs(h.tlvs());
     let _ = walk_tlvs(o.tlvs());
@@ -185,6 +221,15 @@ impl Check for C03 {
             sc.entry = e;
             sc.intended_header_len = s.len();
             sc.events = transport::every_cut(s.len(), s.len());
+            return sc;
+        }
+        if (index as usize) < DIRECTED.len() + 2 {
+            sc.sub = "directed_dense_section".into();
+            sc.stream = dense_section(index - DIRECTED.len() as u64);
+            sc.entry = Entry::V2;
+            sc.set_tag("fault", "dense_tlv_section");
+            sc.intended_header_len = sc.stream.len();
+            sc.events = vec![Ev::Deliver(sc.stream.len()), Ev::Stall];
             return sc;
         }
         sc.entry = *rng.pick(&Entry::ALL);
